@@ -22,7 +22,8 @@ import (
 //	rounds   N times { Batch(Key or, if Key<0, keys 0..2 in turn, fresh value); adv one interval }
 //	cancel   cancel the context of subscriber Sub
 //	read     the manual reader of subscriber Sub receives up to N values
-//	close    call Close
+//	close    N overlapping Close calls (N<1: one); may be issued again later
+//	parkcas  hold the Close call that wins the processor's CAS at queue.close.afterCAS (before it closes stopCh)
 //	parksend hold `execute` at batcher.execute.beforeSend for subscriber Sub (the lock is held) the next time it gets there
 //	parkexit hold the forwarder of subscriber Sub at batcher.forwarder.exit (about to take the lock)
 //	release  release every goroutine held by the harness
@@ -47,6 +48,8 @@ func (o Op) String() string {
 		return fmt.Sprintf("rounds:%d/%d", o.Key, o.N)
 	case "cancel", "parksend", "parkexit":
 		return fmt.Sprintf("%s:%d", o.Op, o.Sub)
+	case "close":
+		return fmt.Sprintf("close:%d", o.N)
 	}
 	return o.Op
 }
@@ -156,8 +159,8 @@ type World struct {
 
 	subPending   atomic.Int32
 	closeCalled  bool
-	closePending atomic.Bool
-	closeRet     atomic.Bool
+	closePending atomic.Int32 // Close calls that have not returned
+	closeRet     atomic.Bool  // some Close call has returned
 	wg           sync.WaitGroup
 
 	subAfterClose bool
@@ -235,6 +238,13 @@ func (w *World) hook(name string, args ...any) {
 		}
 		if r := w.findPark("exit", id); r != nil && r.hit.CompareAndSwap(false, true) {
 			w.add(Ev{K: "park", P: "exit", Sub: id})
+			w.heldExit.Add(1)
+			<-r.release
+			w.heldExit.Add(-1)
+		}
+	case "queue.close.afterCAS":
+		if r := w.findPark("cas", 0); r != nil && r.hit.CompareAndSwap(false, true) {
+			w.add(Ev{K: "park", P: "cas"})
 			w.heldExit.Add(1)
 			<-r.release
 			w.heldExit.Add(-1)
@@ -351,7 +361,7 @@ func (w *World) departuresDone() bool {
 }
 
 func (w *World) quiescent() bool {
-	return w.loopIdle() && w.readersCaughtUp() && w.subPending.Load() == 0 && !w.closePending.Load() && w.departuresDone()
+	return w.loopIdle() && w.readersCaughtUp() && w.subPending.Load() == 0 && w.closePending.Load() == 0 && w.departuresDone()
 }
 
 // settle waits until the batcher is quiescent; when a goroutine is held by the harness or `execute`
@@ -396,8 +406,10 @@ func (w *World) tryRecv(s *subRec) (got bool, closed bool) {
 	select {
 	case v, ok := <-s.ch:
 		if !ok {
-			w.evs = append(w.evs, Ev{K: "chclosed", Sub: s.id, Now: w.nowNs()})
-			s.closed.Store(true)
+			if !s.closed.Load() {
+				w.evs = append(w.evs, Ev{K: "chclosed", Sub: s.id, Now: w.nowNs()})
+				s.closed.Store(true)
+			}
 			return false, true
 		}
 		w.evs = append(w.evs, Ev{K: "recv", Sub: s.id, V: v, Now: w.nowNs()})
@@ -536,27 +548,30 @@ func (w *World) exec(o Op) {
 		}
 		w.settle(opGrace)
 	case "close":
-		if w.closeCalled {
-			w.skipped++
-			return
+		// N overlapping Close calls (at least one); Close may be called again later
+		n := o.N
+		if n < 1 {
+			n = 1
 		}
-		w.closeCalled = true
-		w.closePending.Store(true)
-		w.add(Ev{K: "ccall"})
-		go func() {
-			defer w.guard("Close")
-			w.b.Close()
-			w.mu.Lock()
-			w.evs = append(w.evs, Ev{K: "cret", Now: w.nowNs()})
-			w.closeRet.Store(true)
-			w.mu.Unlock()
-			w.closePending.Store(false)
-		}()
+		for k := 0; k < n; k++ {
+			w.closeCalled = true
+			w.closePending.Add(1)
+			w.add(Ev{K: "ccall"})
+			go func() {
+				defer w.guard("Close")
+				w.b.Close()
+				w.closeReturned()
+				w.closePending.Add(-1)
+			}()
+		}
 		w.settle(opGrace)
-	case "parksend", "parkexit":
+	case "parksend", "parkexit", "parkcas":
 		p := "send"
 		if o.Op == "parkexit" {
 			p = "exit"
+		}
+		if o.Op == "parkcas" {
+			p = "cas"
 		}
 		w.parksMu.Lock()
 		w.parks = append(w.parks, &parkReq{p: p, sub: o.Sub, release: make(chan struct{})})
@@ -567,6 +582,40 @@ func (w *World) exec(o Op) {
 	case "settle":
 		w.settle(opGrace)
 	}
+}
+
+// closeReturned is run by every Close call right after b.Close() returned. Atomically with the
+// logging of its `cret` it looks at the channel of every subscriber accepted before the first Close
+// call: closed (fine), still open (`open` event: this Close returned before the channel was
+// closed), or a forwarder is still sending on it (the value is logged as received AFTER the cret).
+func (w *World) closeReturned() {
+	if w.dead.Load() {
+		return
+	}
+	w.mu.Lock()
+	defer w.mu.Unlock()
+	now := w.nowNs()
+	var late []Ev
+	for _, s := range w.subs {
+		if !s.returned.Load() || s.afterClose || s.closed.Load() {
+			continue
+		}
+		select {
+		case v, ok := <-s.ch:
+			if !ok {
+				w.evs = append(w.evs, Ev{K: "chclosed", Sub: s.id, Now: now})
+				s.closed.Store(true)
+			} else {
+				late = append(late, Ev{K: "recv", Sub: s.id, V: v, Now: now})
+				s.received.Add(1)
+			}
+		default:
+			late = append(late, Ev{K: "open", Sub: s.id, Now: now})
+		}
+	}
+	w.evs = append(w.evs, Ev{K: "cret", Now: now})
+	w.evs = append(w.evs, late...)
+	w.closeRet.Store(true)
 }
 
 func (w *World) waitFor(d time.Duration, cond func() bool) bool {
@@ -641,8 +690,8 @@ func runCase(c Case, cap int, final time.Duration) Outcome {
 		if w.subPending.Load() > 0 {
 			out.Stuck = append(out.Stuck, "Subscribe has not returned")
 		}
-		if w.closePending.Load() {
-			out.Stuck = append(out.Stuck, "Close has not returned")
+		if n := w.closePending.Load(); n > 0 {
+			out.Stuck = append(out.Stuck, fmt.Sprintf("%d Close call(s) have not returned", n))
 		}
 		if !w.loopIdle() {
 			what := "the queue loop is not idle"
@@ -704,14 +753,14 @@ func runCase(c Case, cap int, final time.Duration) Outcome {
 	}
 	if !w.closeCalled {
 		w.closeCalled = true
-		w.closePending.Store(true)
+		w.closePending.Add(1)
 		go func() {
 			defer w.guard("cleanup Close")
 			w.b.Close()
-			w.closePending.Store(false)
+			w.closePending.Add(-1)
 		}()
 	}
-	w.waitFor(300*time.Millisecond, func() bool { return !w.closePending.Load() })
+	w.waitFor(300*time.Millisecond, func() bool { return w.closePending.Load() == 0 })
 	time.Sleep(500 * time.Microsecond)
 	return out
 }
